@@ -150,6 +150,38 @@ def program_side(rep, tier):
     return jobs, texts
 
 
+def native_percpu_x(name, conc, notes):
+    """a real PerCPUVar over a buffer that holds a different fixed-point value
+    for each CPU"""
+    import struct
+    from ebpfcat.arraymap import ArrayGlobalVarDesc, PerCPUVar
+    size, cpus, addr = 16, 4, 8
+    data = bytearray(size * cpus)
+    vals = [1.5, -2.25, 3.0, 100.00001]
+    for c, v in enumerate(vals):
+        struct.pack_into("q", data, c * size + addr, round(v * 100000))
+
+    class Map:
+        name, cpu_no, base_register = "pmap", cpus, 0
+    Map.size = size
+
+    class Prog:
+        pass
+    inst = Prog()
+    inst.ebpf = inst
+    inst.pmap = type("R", (), {"data": memoryview(bytes(data))})()
+    desc = ArrayGlobalVarDesc(Map, "x")
+    desc.name = "v"
+    inst.__dict__["v"] = addr
+    var = PerCPUVar(desc, inst)
+    try:
+        got = [var[c] for c in range(cpus)]
+    except Exception as e:      # noqa
+        return {"inputs": {"values": vals}, "reproduced": True, "detail": f"raised {type(e).__name__}: {e}"}
+    return {"inputs": {"per-CPU values stored": vals, "stride": size, "offset": addr}, "reproduced": got != vals,
+            "detail": f"real PerCPUVar.__getitem__ for a fixed-point variable: read {got}, stored {vals}"}
+
+
 def run(tier, seed):
     from contracts import c08_arraymap as S
     rep = R.Report("C08", tier, seed)
@@ -179,6 +211,7 @@ def run(tier, seed):
         api.verify(S.user_get(f), rep, options=OPTS, quiet=True)
         api.verify(S.user_set(f), rep, options=OPTS, quiet=True)
         api.verify(S.percpu_getitem(f), rep, quiet=True)
+    api.verify(S.percpu_getitem("x"), rep, quiet=True, replay=native_percpu_x)
     jobs, texts = program_side(rep, tier)
     merged = parallel.aggregate(parallel.discharge(jobs))
     rep.extra["vc_queries"] = rep.extra.get("vc_queries", 0) + len(jobs)
